@@ -107,14 +107,33 @@ fn install_hook() {
         let loc = info.location().map(|l| format!("{}:{}", l.file(), l.line())).unwrap_or_default();
         let mut s = format!("{msg} @ {loc}");
         if !loc.starts_with("/repo/") {
-            let bt = std::backtrace::Backtrace::force_capture().to_string();
-            if let Some(f) = first_turdb_frame(&bt) {
+            if let Some(f) = turdb_caller() {
                 s.push_str(" via ");
                 s.push_str(&f);
             }
         }
         vcore::util::LAST_PANIC.with(|p| *p.borrow_mut() = s);
     }));
+}
+static BT_CACHE: Mutex<BTreeMap<Vec<usize>, Option<String>>> = Mutex::new(BTreeMap::new());
+/// First turdb frame of the current call stack.  Symbolisation is slow (the
+/// first one costs ~2 s), so it is done once per distinct stack of return
+/// addresses and with the watchdog paused.
+fn turdb_caller() -> Option<String> {
+    let mut ips = [std::ptr::null_mut::<libc::c_void>(); 64];
+    let n = unsafe { libc::backtrace(ips.as_mut_ptr(), 64) }.max(0) as usize;
+    let key: Vec<usize> = ips[..n].iter().map(|p| *p as usize).collect();
+    if let Some(v) = BT_CACHE.lock().unwrap().get(&key) {
+        return v.clone();
+    }
+    let armed = WD_START.swap(0, Ordering::Relaxed);
+    let bt = std::backtrace::Backtrace::force_capture().to_string();
+    let r = first_turdb_frame(&bt);
+    BT_CACHE.lock().unwrap().insert(key, r.clone());
+    if armed != 0 {
+        WD_START.store(now_ms() + 1, Ordering::Relaxed);
+    }
+    r
 }
 fn first_turdb_frame(bt: &str) -> Option<String> {
     for line in bt.lines() {
@@ -1842,11 +1861,17 @@ impl Check for C22 {
         for name in ["tok.ok_rows", "tok.ok_changed", "tok.err_exec", "mut.ok_rows", "mut.ok_changed", "mut.err_exec", "lex.ok_rows", "lex.inputs_invalid_utf8_fed_lossy", "par.ok_rows", "par.ok_changed", "par.err_exec", "prag.ok_changed", "arith.ok_rows", "arith.ok_changed", "fn.ok_rows", "api.ok_changed", "api.err_exec", "big.cases"] {
             rep.expect_nonzero(name);
         }
-        rep.bound("alphabet", json!(ALPHA));
+        rep.bound("alphabet", json!(ALPHA.to_vec()));
         rep.bound("seed_statements", json!(SEEDS.len()));
         rep.sample(|| json!({"sub": "mut", "idx": 41, "meaning": "seed 0 'SELECT * FROM t' with one token substituted"}));
         let subs = g.subs();
         'outer: for sd in &subs {
+            // development aid: `--opt only=tok,mut` restricts the run to some sub-spaces
+            if let Some(o) = ctx.opt("only") {
+                if !o.split(',').any(|x| x == sd.name) {
+                    continue;
+                }
+            }
             let n = ctx.tier.pick(sd.quick, sd.thorough);
             rep.bound(&format!("{}_cases_enumerated", sd.name), json!(n));
             let nb = (n + sd.block - 1) / sd.block;
